@@ -39,7 +39,10 @@ def strat_model(draw, families=("bs", "hem", "merton", "vg", "cgmy")):
         br = draw(st.sampled_from(["y<0", "y=0", "0<y<1", "y=1", "1<y<2"]))
         y = {"y<0": draw(_f(-1.0, -0.1)), "y=0": 0.0, "0<y<1": draw(_f(0.1, 0.9)), "y=1": 1.0, "1<y<2": draw(_f(1.1, 1.8))}[br]
         p = {"c": draw(_f(0.05, 3.0)), "g": draw(_f(3.0, 30.0)), "m": draw(_f(3.0, 30.0)), "y": y}
-    return {"family": fam, "params": p, "exp": {"spot": draw(_f(5.0, 300.0)), "r": draw(_f(0.0, 0.08)), "d": draw(_f(0.0, 0.06))}}
+    spec = {"family": fam, "params": p, "exp": {"spot": draw(_f(5.0, 300.0)), "r": draw(_f(0.0, 0.08)), "d": draw(_f(0.0, 0.06))}}
+    if fam != "bs" and draw(st.integers(0, 3)) == 0:
+        spec["route"] = "updated"  # parameters assigned one by one, then initialisation() (what a calibration does)
+    return spec
 
 
 @st.composite
@@ -279,13 +282,15 @@ def classify_arbitrage(case):
 @st.composite
 def strat_cross(draw, tier):
     kind = draw(st.sampled_from(["bs", "cos-fft", "cos-fft", "vg-cgmy"]))
+    long_dated = False
     if kind == "bs":
         model = draw(strat_model(families=("bs",)))
     elif kind == "vg-cgmy":
         model = draw(strat_model(families=("vg",)))
     else:
         model = draw(strat_model(families=("hem", "merton", "vg", "cgmy")))
-    return {"kind": kind, "model": model, "T": draw(_f(0.2, 2.5)), "nk": draw(st.integers(3, 7))}
+    return {"kind": kind, "model": model, "T": draw(_f(10.0, 30.0)) if long_dated else draw(_f(0.2, 2.5)),
+            "nk": draw(st.integers(3, 7))}
 
 
 def body_cross(case):
@@ -365,7 +370,7 @@ def body_cross(case):
 
 
 def classify_cross(case):
-    return [case["kind"], branch_of(case["model"])], True
+    return [case["kind"], branch_of(case["model"])] + (["long-dated-low-volatility"] if case["T"] >= 10 else []), True
 
 
 # ------------------------------------------------------------------------------------ one pricer object, many calls
